@@ -422,7 +422,7 @@ func (w *W) opMint(op string, qi int, variant string) error {
 			}
 		}
 		outs = w.U.Outputs(id, world.Split(amt)...)
-	case "badsig", "nosig":
+	case "badsig", "nosig", "sig-cut", "sig-padded", "sig-onebyte", "sig-doubled":
 		outs = w.U.Outputs(act.Id, world.Split(amt)...)
 	case "unsorted", "sig-reordered", "sig-sorted", "sig-added", "sig-removed", "sig-otherquote":
 		// several outputs of different amounts in an order that is not sorted (amount >= 8): 4,1,2,1,...
@@ -451,6 +451,23 @@ func (w *W) opMint(op string, qi int, variant string) error {
 			other := secp256k1.PrivKeyFromBytes(sha256sum("another key"))
 			s, _ := nut20.SignMintQuote(other, q.Q.Id, req.Outputs)
 			req.Signature = hex.EncodeToString(s.Serialize())
+			sigOK = false
+		case "sig-cut", "sig-padded", "sig-onebyte", "sig-doubled":
+			// well-formed hex that is not a 64-byte signature: the genuine signature minus its last byte, plus one byte,
+			// a single byte, twice in a row
+			s, _ := nut20.SignMintQuote(q.Key, q.Q.Id, req.Outputs)
+			b := s.Serialize()
+			switch variant {
+			case "sig-cut":
+				b = b[:len(b)-1]
+			case "sig-padded":
+				b = append(b, 0)
+			case "sig-onebyte":
+				b = []byte{0}
+			case "sig-doubled":
+				b = append(append([]byte{}, b...), b...)
+			}
+			req.Signature = hex.EncodeToString(b)
 			sigOK = false
 		case "sig-reordered", "sig-sorted", "sig-added", "sig-removed", "sig-otherquote":
 			// a genuine signature by the right key, but not over exactly the submitted outputs of this quote
@@ -918,7 +935,12 @@ func (w *W) opMelt(op string, mi int, ins, pay, status string) error {
 			m.Known = "success"
 			m.Preimage = w.LN.Invoices[m.Hash].Preimage
 			q := w.Quotes[m.Internal]
-			q.Payments++
+			if m.Q.Amount < q.Q.Amount {
+				// a part of the invoice is not the invoice: the quote is not paid by it
+				w.viol("C02,C03", "mint-quote-settled-by-smaller-internal-melt", "MeltTokens(mq%d): a melt quote of %d sat settled mint quote q%d of %d sat internally", mi, m.Q.Amount, m.Internal, q.Q.Amount)
+			} else {
+				q.Payments++
+			}
 			// what backs the internally settled mint quote is what the melt burned for it: the MELT quote's amount
 			w.InternalSettled += m.Q.Amount
 		}
